@@ -376,7 +376,7 @@ def run_shard(sh):
         elif r.random() < 0.2:
             # package-idiom printer, restricted to shapes the fixtures witness (no parentheses around the body)
             for _ in range(12):
-                doc, text = D.make(r.randrange(2**40), with_ident_env=True)
+                doc, text = D.make(r.randrange(2**40), with_ident_env=True, blank_close=False)
                 # only wrapper shapes whose layout the fixtures witness: `{ formals }:` heads, let blocks, call heads
                 if all(w[0] in ("let", "call") or (w[0] == "lambda" and not w[1].startswith("x:")) for w in doc.wrappers):
                     break
